@@ -103,6 +103,8 @@ type sqlGen struct {
 
 	intEnum, strEnum, smallEnum *Decl
 	usedDashComma               bool
+	octet *Decl
+	aliasFK bool
 	extInPayload                bool
 	otherFileID                 *Decl
 	otherFileTable              string
@@ -595,9 +597,23 @@ func (g *sqlGen) payload() *Decl {
 			d.Fields = append(d.Fields, &Field{Name: "Minus", Type: Basic("int"), Tag: `json:"-,"`}) // the key is "-"
 			g.p.Feature("sql:jsonb-field-with-key-dash")
 		}
-		if g.pr(0.2) {
+		if drawn := g.pr(0.2); drawn || (g.progIdx%3 == 1 && g.octet == nil) {
 			// encoding/json writes a byte slice as a base64 string (null when nil), not as an array of numbers
-			d.Fields = append(d.Fields, &Field{Name: "Raw", Type: Slice(Basic(g.pick("byte", "uint8")))})
+			el := "named" // every third program has one, whatever the draws
+			if drawn {
+				el = g.pick("byte", "uint8", "named")
+			}
+			switch el {
+			case "named":
+				// a slice of a NAMED uint8 is a base64 string for encoding/json too (the rule looks at the element's kind)
+				if g.octet == nil {
+					g.octet = g.addDecl(&Decl{Name: g.fresh("Octet"), Kind: DNamed, Under: Basic("uint8")}, "other.go")
+				}
+				d.Fields = append(d.Fields, &Field{Name: "Raw", Type: Slice(Ref(g.octet))})
+				g.p.Feature("sql:jsonb-field-of-named-uint8-slice")
+			default:
+				d.Fields = append(d.Fields, &Field{Name: "Raw", Type: Slice(Basic(el))})
+			}
 			g.p.Feature("sql:jsonb-field-of-bytes")
 		}
 		for i := 0; i < 1+g.r.Intn(4); i++ {
@@ -912,6 +928,13 @@ func (g *sqlGen) fkColumn(t, prev *sqlTable, idx int) colSpec {
 	case prev.idT != nil && g.pr(0.6): // by ID type
 		f.Type = Ref(prev.idT)
 		c.Kind = "fk:id-type"
+		if g.progIdx%4 == 2 && !g.aliasFK {
+			// the ID type spelled through an ALIAS (type ParentRef = IdParent): still the same type
+			g.aliasFK = true
+			al := g.addDecl(&Decl{Name: g.fresh(prev.decl.Name + "Ref"), Kind: DAlias, Under: Ref(prev.idT)}, "other.go")
+			f.Type = Ref(al)
+			g.p.Feature("sql:foreign-key-typed-by-an-alias-of-the-id-type")
+		}
 	case g.pr(0.35): // nullable, by tag
 		f.Type = Std("sql.NullInt64")
 		fk.Nullable, fk.ByTag, fk.KeyType = true, true, "int64"
